@@ -205,6 +205,9 @@ func open(lw *lower, maxZip int) (inst *instance, err error) {
 
 func (in *instance) close() {
 	inject.UnregisterKV(in.kvName)
+	in.plan.Yield = nil
+	in.plan.After = nil
+	in.plan.ResetLog()
 }
 
 // packedRefs lists the logical blobs contained in the zips of large according to meta-free
